@@ -537,8 +537,9 @@ func (b *blob) cacheChunkData(chunk region, r io.Reader, fr fetcher, allData map
 	defer cw.Close()
 
 	w := io.Writer(cw)
-	if _, ok := fetched[chunk]; ok {
-		w = io.MultiWriter(w, allData[chunk])
+	if dw, ok := allData[chunk]; ok && dw != nil {
+		// this chunk is one of the requested ones
+		w = io.MultiWriter(w, dw)
 	}
 
 	if _, err := io.CopyN(w, r, chunk.size()); err != nil {
